@@ -205,6 +205,20 @@ def representations(dtype, shape, pats, root, tier):
         yield "Tensor[non-contiguous ndarray]", ir.Tensor(tr, dtype=dtype, name="t")
         big = np.concatenate([arr, arr], axis=1)[:, : shape[1]]  # a strided view into a larger buffer
         yield "Tensor[strided view]", ir.Tensor(big, dtype=dtype, name="t")
+    if dtype in NP_NATIVE and arr.dtype.itemsize > 1:
+        # the same values in an array of non-native byte order: either refused or encoded little-endian like any other
+        try:
+            swapped = arr.astype(arr.dtype.newbyteorder(">"))
+            cands = []
+            for mk_label, mk in (("Tensor[big-endian ndarray]", lambda: ir.Tensor(swapped, name="t")), ("Tensor[big-endian ndarray,dtype given]", lambda: ir.Tensor(swapped, dtype=dtype, name="t")),
+                                 ("ir.tensor(big-endian ndarray)", lambda: ir.tensor(swapped, name="t"))):
+                try:
+                    cands.append((mk_label, mk()))
+                except (TypeError, ValueError):
+                    pass  # refusing such an array is consistent
+            yield from cands
+        except Exception:  # noqa: BLE001  numpy cannot express it
+            pass
     if dtype in ML:
         # raw unsigned carrier, reinterpreted by the library
         if b == 16:
@@ -437,6 +451,144 @@ def _work(task):
     return ncase, nck, len(pats_seen), onnx_cross, found
 
 
+# ---------------------------------------------------------------------------
+# ExternalTensor.tofile on regular files: every answer sequence of os.copy_file_range within a deviation bound
+
+KC_FALLBACK = ("EXDEV", "EINVAL", "ENOSYS", "EOPNOTSUPP", "EPERM", "EBADF")
+KC_FATAL = ("ENOSPC", "EIO")
+KC_ANSWERS = ["full", "short1", "half", "zero"] + [f"raise:{e}" for e in KC_FALLBACK + KC_FATAL]
+
+
+def _kernel_copy_run(root, layout, answers):
+    """One execution of tofile with the k-th copy_file_range call answered by answers[k] (default 'full').
+    Returns (trace of answers consumed, violations)."""
+    import errno as _errno
+
+    off, n, tail, pre, dest_mode = layout
+    data = bytes((i * 7 + 3) % 251 for i in range(n))
+    src = os.path.join(root, "kc_src.bin")
+    with open(src, "wb") as f:
+        f.write(b"\xEE" * off + data + b"\xDD" * tail)
+    t = ir.ExternalTensor("kc_src.bin", off, n, DT.UINT8, shape=ir.Shape([n]), name="t", base_dir=root)
+    dst = os.path.join(root, "kc_dst.bin")
+    if dest_mode == "wb":
+        before = b"p" * pre
+        with open(dst, "wb") as f:
+            pass
+    else:
+        before = b"\x11" * (pre + n + 6)
+        with open(dst, "wb") as f:
+            f.write(before)
+    used = []
+    v = []
+    fatal = None
+
+    def fake(fd_in, fd_out, count, offset_src=None, offset_dst=None):
+        nonlocal fatal
+        k = len(used)
+        ans = answers[k] if k < len(answers) else "full"
+        used.append(ans)
+        if count <= 0:
+            v.append(("kernel_copy_requested_nothing", (k, count)))
+        if offset_src is None or offset_dst is None:
+            v.append(("kernel_copy_without_explicit_offsets", k))
+            return 0
+        if offset_src < off or offset_src + count > off + n:
+            v.append(("kernel_copy_request_outside_the_tensor_range", (k, offset_src, count, off, n)))
+        if ans.startswith("raise:"):
+            name = ans.split(":")[1]
+            if name in KC_FATAL:
+                fatal = name
+            raise OSError(getattr(_errno, name), f"injected {name}")
+        if ans == "zero":
+            return 0
+        m = count if ans == "full" else 1 if ans == "short1" else max(1, count // 2)
+        buf = os.pread(fd_in, m, offset_src)
+        os.pwrite(fd_out, buf, offset_dst)
+        return len(buf)
+
+    saved = os.copy_file_range
+    os.copy_file_range = fake
+    exc = None
+    pos = None
+    try:
+        with open(dst, "wb" if dest_mode == "wb" else "r+b") as f:
+            if dest_mode == "wb":
+                f.write(before)
+            else:
+                f.seek(pre)
+            try:
+                t.tofile(f)
+            except OSError as e:
+                exc = e
+            pos = f.tell()
+            if exc is None:
+                f.write(b"Z")
+    finally:
+        os.copy_file_range = saved
+    got = open(dst, "rb").read()
+    if fatal is not None:
+        if exc is None or exc.errno != getattr(_errno, fatal):
+            v.append(("fatal_copy_error_not_propagated", (fatal, repr(exc))))
+    elif exc is not None:
+        v.append(("tofile_raises_although_fallback_possible", repr(exc)[:120]))
+    else:
+        want = (before + data + b"Z") if dest_mode == "wb" else (before[:pre] + data + b"Z" + before[pre + n + 1:])
+        if got != want:
+            v.append(("tofile_regular_file_content_wrong", (len(got), len(want), next((i for i, (a, b) in enumerate(zip(got, want)) if a != b), None))))
+        if pos != pre + n:
+            v.append(("tofile_leaves_wrong_file_position", (pos, pre + n)))
+    if not used and n > 0:
+        v.append(("HARNESS:kernel_copy_path_not_taken", None))
+    try:
+        t.release()
+    except Exception:  # noqa: BLE001
+        pass
+    return used, v
+
+
+def _kernel_copy_explore(task):
+    layout, bound = task
+    root = common.scratch_dir("c04kc")
+    found = {}
+    nexec = 0
+    outcomes = set()
+    try:
+        stack = [[]]
+        while stack:
+            prefix = stack.pop()
+            used, v = _kernel_copy_run(root, layout, prefix)
+            nexec += 1
+            if used[: len(prefix)] != prefix[: len(used)]:
+                raise common.HarnessError(f"C04 kernel-copy replay diverged: {prefix} vs {used}")
+            outcomes.add(tuple(used))
+            for clause, detail in v:
+                if clause.startswith("HARNESS:"):
+                    raise common.HarnessError(f"C04: {clause} for {layout}")
+                found.setdefault(f"{clause}|ExternalTensor.tofile[copy_file_range]", {"dtype": "UINT8", "shape": [layout[1]], "clause": clause, "label": f"layout={layout} answers={prefix}", "detail": detail})
+            ndev = sum(1 for a in prefix if a != "full")
+            if ndev >= bound:
+                continue
+            # a deviation at any call index at or after the end of the prefix that the execution reached
+            for k in range(len(prefix), len(used)):
+                for ans in KC_ANSWERS[1:]:
+                    stack.append(prefix + ["full"] * (k - len(prefix)) + [ans])
+    finally:
+        shutil.rmtree(root, ignore_errors=True)
+    return nexec, len(outcomes), found
+
+
+def kernel_copy_checks(tier):
+    layouts = [(off, n, tail, pre, mode) for (off, n, tail) in ((0, 40, 0), (5, 40, 7), (3, 1, 2)) for pre in (0, 3) for mode in ("wb", "r+b")]
+    bound = 3 if tier == "quick" else 5
+    res = common.pmap(_kernel_copy_explore, [(lay, bound) for lay in layouts], chunksize=1)
+    found = {}
+    for _, _, f in res:
+        for k, v in f.items():
+            found.setdefault(k, v)
+    return sum(a for a, _, _ in res), sum(b for _, b, _ in res), found, {"layouts": len(layouts), "deviation_bound": bound, "answers": KC_ANSWERS}
+
+
 def table_checks():
     out = []
     for d in DT:
@@ -479,6 +631,10 @@ def main(tier):
     for *_, f in res:
         for k, v in f.items():
             found.setdefault(k, v)
+    kc_exec, kc_out, kc_found, kc_info = kernel_copy_checks(tier)
+    for k, v in kc_found.items():
+        found.setdefault(k, v)
+    nck += kc_exec
     for clause, name, detail in table_checks():
         found.setdefault(f"{clause}|{name}", {"dtype": name, "clause": clause, "label": "table", "detail": str(detail)})
     # string tensors: values only (ONNX has no byte form for them)
@@ -504,11 +660,13 @@ def main(tier):
     r.coverage.update({
         "evaluations": nck, "distinct_nontrivial": ncase,
         "rule": "a case is (dtype, shape, bit-pattern fill); every case is pushed through every representation and 6 tofile destinations; evaluations = (case, representation) pairs checked; distinct_nontrivial = distinct (dtype, shape, fill) cases",
+        "kernel_copy_executions": kc_exec, "kernel_copy_distinct_answer_sequences": kc_out, "kernel_copy": kc_info,
         "exhaustive": True, "dtypes": len(ALL_DTYPES) + 1, "shapes": [list(s) for s in SHAPES],
         "cases_where_onnx_reference_decoder_confirms_the_reference_bytes": onnx_cross,
         "bit_patterns": "all 2^k patterns for k<=8 at every position parity; 16-bit: " + ("all 65536" if tier == "thorough" else "boundary set + every 257th") + "; wider: boundary/non-finite set",
     })
-    r.assumptions += ["little-endian host", "float_data/double_data cases skip fills containing NaN (python float conversion does not keep NaN payloads)",
+    r.assumptions += ["kernel-copy exploration: os.copy_file_range is replaced by an emulation whose k-th answer is chosen from {full, 1 byte, half, 0, OSError per errno}; every answer sequence with at most the stated number of non-'full' answers is executed; ENOSPC/EIO must propagate, the other errnos and short/zero copies must fall back transparently",
+                      "little-endian host", "float_data/double_data cases skip fills containing NaN (python float conversion does not keep NaN payloads)",
                       "onnx.numpy_helper is used as an independent codec where it supports the dtype/container"]
     return r.finish()
 
